@@ -80,6 +80,13 @@ def run(M, rep, tier, only=None):
     R6 = rep.rule("C02.R6", "containers keep no state: no stores to self outside __init__", floor=20,
                   technique="heap-store events on all abstract paths")
 
+    R7 = rep.rule("C02.R7", "handles are stateless: nothing read from the file, no argument and no followed link is remembered "
+                  "on an object or in a module table", floor=25,
+                  technique="classification of every instance-attribute / table store on all abstract paths (resolved types, "
+                            "storage-read terms); key-determines-value test for module tables")
+    from . import stateless
+    stateless.run(M, rep, R7)
+
     classes = ENTITY_CLASSES + ["Dimension", "BaseTag", "Entity", "DataSet", "DataView"]
     seen = set()
     for cn, name, tb, f in surface(M, ENTITY_CLASSES + ["DataView"], ("setters",)):
@@ -225,6 +232,43 @@ def run(M, rep, tier, only=None):
                 badp = p
         rep.check(R4, cn + ".get_attr", okg, "get_attr returns a value without reading attribute `name`",
                   site=ga.file + ":%d" % ga.node.lineno, detail=describe_path(badp) if not okg else None)
+
+    # ---- R8: members of H5Group that add content resolve their HDF5 group through the parent in the same call
+    R8 = rep.rule("C02.R8", "H5Group members that add content re-resolve the group through its parent (no stale h5py handle)",
+                  floor=3, technique="receiver provenance of every raw h5py write on all abstract paths (raw mode)")
+    hg = M.classes.get("H5Group")
+    if hg is None:
+        rep.bad(R8, "H5Group", "required mechanism not found")
+    else:
+        cached = ("attr", ("self",), "_group")
+        for name, f in sorted(hg.methods.items()):
+            if name.startswith("__") or name in ("_create_h5obj",):
+                continue
+            try:
+                paths = explore(rcfg, f, "H5Group", None, 4000)
+            except Exception as e:
+                if type(e).__name__ != "Budget":
+                    raise
+                continue
+            resolves = any(any(q.endswith("H5Group._create_h5obj") for q in e.stack) for p in paths for e in p.events)
+            if not resolves:
+                continue
+            bad = None
+            for p in paths:
+                for e in p.events:
+                    if e.kind != "raw" or e.recv is None:
+                        continue
+                    eff = e.kw.get("__effect__")
+                    if eff is None or eff.t[1] not in ("Wlink", "Wattr", "Wcreate_ds", "Wgroup"):
+                        continue
+                    if any("H5DataSet." in q for q in e.stack):
+                        continue        # writing into a dataset object that was looked up: not an addition to the group
+                    if any(x == cached for x in subterms(e.recv.t)):
+                        bad = (p, e)
+            rep.check(R8, "H5Group." + name, bad is None, "H5Group.%s writes through the remembered h5py group object without "
+                      "looking it up in its parent again: when the group was unlinked and re-created through another handle, "
+                      "the write goes to the orphaned group and is lost on reopening" % name,
+                      site=bad[1].site if bad else None, detail=describe_path(bad[0]) if bad else None)
 
     # ---- R5
     for nm, need in (("close", "file.close"), ("__exit__", "file.close")):
